@@ -7,6 +7,13 @@ NAMESPACE: everything in this file lives in `Verif.Proofs.ReCost` (open it with
 (`Proofs.sub_cost`, `Proofs.nestedPlusPattern`, `Proofs.nestedPlus_exponential`) are
 defined at the end of the file in namespace `Verif.Proofs`.
 
+Contents: (1) fuel independence and the unfolding equations `runs_*` / `work_*`;
+(2) `runs_suffix`, `runs_length_le`, `runs_length_le_work`; (3) raw composition bounds
+(`work_cat_le`, `work_cat_munch`, `runs_cat_length_munch`, class-star facts, the star chain
+lemmas `runs_star_chain_length` / `work_star_chain` / `countP_runs_star_chain`); (4) the degree
+calculus `PB` / `RP` / `Sparse` / `Sparse1` / `Dead` / `Cheap` built on them, in which the
+per-pattern proofs of ReSmall.lean are written; (5) `sub_cost`; (6) the exponential witness.
+
 Core Lean only.
 -/
 import Verif.Model.Re
@@ -440,6 +447,45 @@ theorem countP_runs_star_cls (ivs) (P : List Nat → Bool) (hP : ∀ t, P t = tr
       rw [List.countP_append]; simp [hp]; exact ih
     · exact List.countP_le_length
 
+
+/-- `t` is empty or starts with a character outside the class -/
+def notStartsIn (ivs : List (Nat × Nat)) (t : List Nat) : Bool := !startsIn ivs t
+
+/-- disjoint classes (for concrete interval lists: `by intro c; simp [Re.inCls]; omega`) -/
+def Disj (A B : List (Nat × Nat)) : Prop := ∀ c, inCls A c = true → inCls B c = false
+
+/-- class inclusion -/
+def Sub (A B : List (Nat × Nat)) : Prop := ∀ c, inCls A c = true → inCls B c = true
+
+theorem Disj.symm {A B} (h : Disj A B) : Disj B A := by
+  intro c hc
+  cases hA : inCls A c with
+  | false => rfl
+  | true => have := h c hA; simp [hc] at this
+
+theorem Disj.starts {A B} (h : Disj A B) : ∀ t, startsIn A t = true → startsIn B t = false := by
+  intro t; cases t with
+  | nil => simp
+  | cons c r => exact h c
+
+theorem Disj.starts_not {A B} (h : Disj A B) : ∀ t, startsIn A t = true → notStartsIn B t = true := by
+  intro t ht; simp [notStartsIn, h.starts t ht]
+
+theorem Disj.not_false {A B} (h : Disj A B) : ∀ t, notStartsIn A t = false → startsIn B t = false := by
+  intro t ht; exact h.starts t (by simpa [notStartsIn] using ht)
+
+theorem Sub.starts_false {A B} (h : Sub A B) : ∀ t, startsIn B t = false → startsIn A t = false := by
+  intro t; cases t with
+  | nil => simp
+  | cons c r =>
+    intro hB
+    cases hA : startsIn A (c :: r) with
+    | false => rfl
+    | true => have := h c hA; simp at hB; simp [hB] at this
+
+theorem notStartsIn_self_false {A} : ∀ t, notStartsIn A t = true → startsIn A t = false := by
+  intro t ht; simpa [notStartsIn] using ht
+
 /-! ### star chain lemmas
 
 `Q` marks the positions at which the body `x` can start at all (`hdead`: outside `Q` the body
@@ -635,12 +681,12 @@ theorem RP.const {r : Re} (h : RP r 0) : ∃ c, ∀ s, (runs r s).length ≤ c :
   obtain ⟨c, h⟩ := h
   exact ⟨c, fun s => by simpa [B] using h s⟩
 
-theorem PB.eps {d : Nat} : PB Re.eps d := PB.of_const 1 (fun s => by simp)
-theorem PB.cls {ivs} {d : Nat} : PB (Re.cls ivs) d := PB.of_const 1 (fun s => by simp)
-theorem PB.eos {d : Nat} : PB Re.eos d := PB.of_const 1 (fun s => by simp)
-theorem PB.eosNl {d : Nat} : PB Re.eosNl d := PB.of_const 1 (fun s => by simp)
-theorem PB.unsupported {d : Nat} : PB Re.unsupported d := PB.of_const 1 (fun s => by simp)
-theorem RP.cls {ivs} {d : Nat} : RP (Re.cls ivs) d := RP.of_const 1 (runs_cls_length_le ivs)
+theorem PB.eps : PB Re.eps 0 := PB.of_const 1 (fun s => by simp)
+theorem PB.cls {ivs} : PB (Re.cls ivs) 0 := PB.of_const 1 (fun s => by simp)
+theorem PB.eos : PB Re.eos 0 := PB.of_const 1 (fun s => by simp)
+theorem PB.eosNl : PB Re.eosNl 0 := PB.of_const 1 (fun s => by simp)
+theorem PB.unsupported : PB Re.unsupported 0 := PB.of_const 1 (fun s => by simp)
+theorem RP.cls {ivs} : RP (Re.cls ivs) 0 := RP.of_const 1 (runs_cls_length_le ivs)
 
 theorem PB.group {id : Nat} {a : Re} {d : Nat} (h : PB a d) : PB (Re.group id a) d := by
   obtain ⟨c, h⟩ := h
@@ -814,6 +860,13 @@ theorem Cheap.group {a : Re} {Q : List Nat → Bool} (h : Cheap a Q) (id : Nat) 
   have := h t ht
   rw [work_group]; omega
 
+theorem Cheap.alt {a b : Re} {Q : List Nat → Bool} (ha : Cheap a Q) (hb : Cheap b Q) : Cheap (Re.alt a b) Q := by
+  obtain ⟨wa, ha⟩ := ha
+  obtain ⟨wb, hb⟩ := hb
+  refine ⟨1 + wa + wb, fun t ht => ?_⟩
+  have := ha t ht; have := hb t ht
+  rw [work_alt]; omega
+
 /-- a cheap head followed by a constant-cost tail -/
 theorem Cheap.cat_const {a b : Re} {Q : List Nat → Bool} (ha : Cheap a Q) (hb : PB b 0) :
     Cheap (Re.cat a b) Q := by
@@ -869,6 +922,14 @@ theorem Sparse.alt {a b : Re} {P : List Nat → Bool} (ha : Sparse a P) (hb : Sp
   refine ⟨ka + kb, fun s => ?_⟩
   have := ha s; have := hb s
   rw [countP_runs_alt]; omega
+
+/-- alternatives of which at most one contributes `P` results -/
+theorem Sparse1.alt_of_excl {a b : Re} {P : List Nat → Bool} (ha : Sparse1 a P) (hb : Sparse1 b P)
+    (hex : ∀ s, (runs a s).countP P = 0 ∨ (runs b s).countP P = 0) : Sparse1 (Re.alt a b) P := by
+  intro s
+  have := ha s; have := hb s
+  rw [countP_runs_alt]
+  cases hex s <;> omega
 
 /-- a head with boundedly many results -/
 theorem Sparse.cat {a b : Re} {P : List Nat → Bool} (ra : RP a 0) (hb : Sparse b P) : Sparse (Re.cat a b) P := by
@@ -938,11 +999,11 @@ theorem Sparse1.star_chain {x : Re} (Q Q' : List Nat → Bool) {P : List Nat →
 
 /-! #### `star` -/
 
-theorem PB.star_cls (ivs) {d : Nat} (hd : 1 ≤ d := by omega) : PB (Re.star (Re.cls ivs)) d :=
-  PB.mono ⟨2, fun s => by simpa using work_star_cls_le ivs s⟩ hd
+theorem PB.star_cls (ivs) : PB (Re.star (Re.cls ivs)) 1 :=
+  ⟨2, fun s => by simpa using work_star_cls_le ivs s⟩
 
-theorem RP.star_cls (ivs) {d : Nat} (hd : 1 ≤ d := by omega) : RP (Re.star (Re.cls ivs)) d :=
-  RP.mono ⟨1, fun s => by simpa [B] using runs_star_cls_length ivs s⟩ hd
+theorem RP.star_cls (ivs) : RP (Re.star (Re.cls ivs)) 1 :=
+  ⟨1, fun s => by simpa [B] using runs_star_cls_length ivs s⟩
 
 /-- chain rule: the body is dead outside `Q` and yields at most one `Q` result per iteration -/
 theorem RP.star_chain (Q : List Nat → Bool) {x : Re} {e g : Nat} (hdead : Dead x Q) (hone : Sparse1 x Q)
